@@ -10,6 +10,7 @@ import (
 	"os/exec"
 	"strconv"
 	"strings"
+	"syscall"
 	"time"
 
 	"github.com/diiyw/nodis"
@@ -23,6 +24,9 @@ func serveMain(args []string) {
 	dir := fs.String("dir", "", "pebble directory (memory backend when empty)")
 	gcms := fs.Int("gc", 0, "gc interval in milliseconds (0 = none)")
 	fs.Parse(args)
+	// an address-space limit for the server under test: a command that makes it allocate without bound kills it
+	// (fatal error: out of memory) instead of depending on the machine's overcommit setting
+	_ = syscall.Setrlimit(syscall.RLIMIT_AS, &syscall.Rlimit{Cur: 12 << 30, Max: 12 << 30})
 	opt := &nodis.Options{GCDuration: time.Duration(*gcms) * time.Millisecond}
 	if *dir != "" {
 		opt.Storage = storage.NewPebble(*dir, nil)
@@ -148,6 +152,22 @@ func readFull(rd *bufio.Reader, buf []byte) (int, error) {
 	return n, nil
 }
 
+// tcpDirected: commands whose cost is set by a number the client chooses (offsets, counts, radii)
+var tcpDirected = [][]string{
+	{"SETRANGE", "big", "70368744177664", "y"}, {"SETBIT", "big", "562949953421311", "1"}, {"SETRANGE", "big", "536870912", "y"},
+	{"SETBIT", "big", "4294967296", "1"}, {"GETRANGE", "big", "0", "70368744177664"}, {"GETBIT", "big", "562949953421311"},
+	{"LRANGE", "big", "0", "70368744177664"}, {"LTRIM", "big", "0", "70368744177664"}, {"LINDEX", "big", "70368744177664"},
+	{"GEORADIUS", "big", "10", "10", "-1", "km"}, {"SCAN", "0", "COUNT", "70368744177664"}, {"EXPIRE", "big", "9223372036854775"},
+}
+
+func strs2bytes(a []string) [][]byte {
+	out := make([][]byte, len(a))
+	for i, x := range a {
+		out[i] = []byte(x)
+	}
+	return out
+}
+
 // tcpMain: hostile inputs on one connection, a canary on another; the server process must
 // stay alive and keep answering the canary promptly and correctly
 func tcpMain(args []string) {
@@ -188,7 +208,12 @@ func tcpMain(args []string) {
 		}
 		var payload []byte
 		kind := r.intn(10)
+		if i < len(tcpDirected) {
+			kind = -1
+			payload = respEncode(tcpDirected[i][0], strs2bytes(tcpDirected[i][1:]))
+		}
 		switch {
+		case kind < 0:
 		case kind < 4:
 			payload = r.malformed()
 		case kind < 9:
